@@ -140,8 +140,11 @@ std::vector<OpWeight> clean_table()
 }
 
 // ------------------------------------------------------------------------------ C17
+// prints whose unfolded size exceeds this many nodes are left out (their text is exponential in the number of operations)
+constexpr double unfolded_limit = 200000;
+
 enum P17 { Q_ops, Q_units_printed, Q_bytes, Q_refused_prints, Q_locations_seen, Q_located_stmts, Q_policy_pairs_diff, Q_noise_allocs, Q_unrelated_nodes,
-           Q_second_print_eq, Q_digest_checks, Q_nodes, Q_nodes_printed, Q_nonempty_texts, Q_reuse, Q_count };
+           Q_second_print_eq, Q_digest_checks, Q_nodes, Q_nodes_printed, Q_nonempty_texts, Q_reuse, Q_too_large, Q_count };
 
 struct C17 : Scenario {
    const char* id() const override { return "C17"; }
@@ -157,13 +160,15 @@ struct C17 : Scenario {
    std::vector<std::string> probe_names() const override
    {
       return { "ops", "units_printed", "bytes_compared", "prints_refused_logic_error", "sentinel_locations_found", "located_statements", "policy_pairs_different", "noise_allocations_in_L2",
-               "unrelated_nodes_in_L2", "second_print_comparisons", "graph_digest_checks", "modelled_objects", "nodes_printed", "nonempty_texts_compared", "heap.reused_blocks" };
+               "unrelated_nodes_in_L2", "second_print_comparisons", "graph_digest_checks", "modelled_objects", "nodes_printed", "nonempty_texts_compared", "heap.reused_blocks",
+               "opt.prints_left_out_unfolded_size_over_limit" };
    }
    std::vector<std::string> assumptions() const override
    {
       return { "both executions apply the same operation list in the same order; they differ in addresses (sub-arena, placement policy), in interleaved noise and in unrelated constructions",
                "the harness only builds acyclic print graphs (links go to older nodes; bodies printed in place are sealed leaf bodies) — see DESIGN.md",
-               "kinds that the printer cannot digest without unbounded recursion (known finding, C18) are not part of the printable fragment" };
+               "kinds that the printer cannot digest without unbounded recursion (known finding, C18) are not part of the printable fragment",
+               "a print whose unfolded size (shared operands counted once per use, words by their length; estimated from the model) exceeds the limit is left out: its text is exponential in the number of operations" };
    }
    size_t prologue_count(int) const override { return 4; }
    Plan prologue(size_t i, int) const override
@@ -289,6 +294,17 @@ struct C17 : Scenario {
             if (a.outcome == PrintResult::Refused) ctx.probe(Q_refused_prints);
             if (not a.text.empty()) ctx.probe(Q_nonempty_texts);
             ctx.event("print %s#%zu loc=%d -> %zu bytes %s", what, index, loc, a.text.size(), outcome_tag(a).c_str());
+            if (ctx.verbose and a.text.size() > 1000000) {
+               // where the bytes are: the text with long runs of one letter abbreviated
+               std::string brief;
+               for (size_t i = 0; i < a.text.size() and brief.size() < 3000; ) {
+                  size_t j = i;
+                  while (j < a.text.size() and std::tolower((unsigned char) a.text[j]) == std::tolower((unsigned char) a.text[i])) ++j;
+                  if (j - i > 8) { brief += a.text[i]; brief += "{" + std::to_string(j - i) + "}"; } else brief.append(a.text, i, j - i);
+                  i = j;
+               }
+               std::printf("BIG %s#%zu: %s\n", what, index, brief.c_str());
+            }
             if (ctx.verbose and std::string(what) == "unit") std::printf("----\n%s\n----\n", a.text.substr(0, 1500).c_str());
             if (a.outcome == PrintResult::OtherException or b.outcome == PrintResult::OtherException)
                return Verdict::fail(std::string("C17/exception/") + what, "printing threw something that is not a logic_error: " + a.what + b.what);
@@ -315,6 +331,9 @@ struct C17 : Scenario {
       for (size_t u = 0; u < w1.units.size(); ++u) {
          const ipr::Translation_unit& u1 = *w1.units.v[u];
          const ipr::Translation_unit& u2 = *w2.units.v[u];
+         const double unit_weight = w1.print_weight(static_cast<const ipr::Translation_unit*>(&u1));
+         if (ctx.verbose) { std::printf("unit#%zu unfolded size estimate %.0f\n", u, unit_weight); std::fflush(stdout); }
+         if (unit_weight > unfolded_limit) { ctx.probe(Q_too_large); continue; }
          ctx.probe(Q_units_printed);
          ctx.relevant = true;
          if (Verdict v = compare("unit", u, [&](ipr::Printer& pp) { pp << u1; }, [&](ipr::Printer& pp) { pp << u2; }); not v) return v;
@@ -338,6 +357,8 @@ struct C17 : Scenario {
          } k1, k2;
          n1.accept(k1); n2.accept(k2);
          if (k1.e == nullptr or k2.e == nullptr) continue;
+         if (w1.print_weight(w1.order[i]) > unfolded_limit) { ctx.probe(Q_too_large); continue; }
+         if (ctx.verbose) std::printf("node#%zu %s unfolded size estimate %.0f\n", i, category_name(rc1.exp.cat), w1.print_weight(w1.order[i]));
          ctx.probe(Q_nodes_printed);
          ctx.relevant = true;
          if (k1.d) { if (Verdict v = compare("decl", i, [&](ipr::Printer& pp) { pp << ipr::xpr_decl(*k1.d, true); }, [&](ipr::Printer& pp) { pp << ipr::xpr_decl(*k2.d, true); }); not v) return v; }
@@ -357,7 +378,7 @@ struct C17 : Scenario {
 
 // ------------------------------------------------------------------------------ C18
 enum P18 { R_ops, R_prints, R_returned, R_refused, R_sink_threw, R_bytes, R_flag_checks, R_decimal_checks, R_control_checks, R_indent_checks, R_kinds_skipped_known,
-           R_fault_capacity, R_fault_throwing, R_fault_fired, R_styles_nondefault, R_literal_ctrl_bytes, R_enclosures, R_nesting, R_units, R_entry0, R_entry1, R_entry2, R_entry3, R_count };
+           R_fault_capacity, R_fault_throwing, R_fault_fired, R_styles_nondefault, R_literal_ctrl_bytes, R_enclosures, R_nesting, R_units, R_entry0, R_entry1, R_entry2, R_entry3, R_too_large, R_count };
 
 struct C18 : Scenario {
    const char* id() const override { return "C18"; }
@@ -375,13 +396,15 @@ struct C18 : Scenario {
    {
       return { "ops", "prints", "prints_returned", "prints_refused_logic_error", "prints_sink_threw", "bytes_printed", "stream_state_checks", "decimal_checks", "control_byte_checks", "indent_checks",
                "opt.prints_skipped_known_finding", "fault.stream_fails_after_n_bytes", "fault.stream_throws", "fault.stream_failure_fired", "nondefault_initial_stream_state", "spellings_with_control_bytes",
-               "enclosures", "opt.deep_statement_nesting", "units_printed", "entry.xpr_decl", "entry.xpr_stmt", "entry.xpr_type", "entry.xpr_expr" };
+               "enclosures", "opt.deep_statement_nesting", "units_printed", "entry.xpr_decl", "entry.xpr_stmt", "entry.xpr_type", "entry.xpr_expr",
+               "opt.prints_left_out_unfolded_size_over_limit" };
    }
    std::vector<std::string> assumptions() const override
    {
       return { "the harness only builds acyclic print graphs (links go to older nodes; bodies printed in place are sealed leaf bodies), so non-termination is the printer's doing",
                "formatting state is compared only when the print returns normally; with a failing or throwing sink only termination and memory safety are asserted",
-               "'decimal' is asserted only when the stream was handed over with a decimal basefield" };
+               "'decimal' is asserted only when the stream was handed over with a decimal basefield",
+               "a print whose unfolded size (estimated from the model) exceeds the limit is left out; termination on such graphs is a matter of time, not of the printer" };
    }
 
    // prologue: one run per (opcode, entry point): a fresh node of each kind offered alone
@@ -532,6 +555,7 @@ struct C18 : Scenario {
          } k;
          n.accept(k);
          if (k.e == nullptr) continue;
+         if (w.print_weight(targets[i]) > unfolded_limit) { ctx.probe(R_too_large); continue; }
          const std::string kind = category_name(rc.exp.cat);
          for (int en = 0; en < 4; ++en) {
             if (only_entry >= 0 and en != only_entry % 4) continue;
@@ -560,6 +584,7 @@ struct C18 : Scenario {
       if (only_entry < 0)
          for (auto u : w.units.v) {
             const ipr::Translation_unit& ui = *u;
+            if (w.print_weight(static_cast<const ipr::Translation_unit*>(&ui)) > unfolded_limit) { ctx.probe(R_too_large); continue; }
             ctx.probe(R_units);
             ctx.relevant = true;
             for (int loc = 0; loc < 2; ++loc) {
